@@ -126,7 +126,9 @@ def run_case(case):
         q0, skind = gen.make_source(rng, ny, nx)
         im, jm = int(rng.integers(nx)), int(rng.integers(ny))
         mp = (im * dx, jm * dy) if (fp or rng.random() < 0.5) else (0.0, 0.0)
-        g0, c0, f0 = run(Sh, q0, lv, footprint=fp, meas_pt=mp)
+        # a background concentration: unchanged by a change of length unit, divided like every concentration by a change of velocity unit
+        bgh = float(rng.choice([0.0, 0.0, 2.5, -40.0, 410.0]))
+        g0, c0, f0 = run(Sh, q0, lv, footprint=fp, meas_pt=mp, srf_bg_conc=bgh)
         ssc, ssf = solve.surface_scales(Sh, q0, footprint=fp, meas_pt=mp, precision=prec)
         fl = {"conc": ssc, "flx": ssf}
 
@@ -139,7 +141,7 @@ def run_case(case):
         T["profiles"] = (v, u, Ky, Kx, Kz)
         T["domain"] = (Sh["domain"][1], Sh["domain"][0])
         T["modes"] = (Sh["modes"][1], Sh["modes"][0])
-        gT, cT, fT = run(T, q0.T.copy(), lv, footprint=fp, meas_pt=(mp[1], mp[0]))
+        gT, cT, fT = run(T, q0.T.copy(), lv, footprint=fp, meas_pt=(mp[1], mp[0]), srf_bg_conc=bgh)
         for fld, a, b_ in (("conc", cT, c0), ("flx", fT, f0)):
             exp = np.swapaxes(b_, 1, 2)
             record("transpose", rel(a, exp, fld), tolh, field=fld, footprint=fp, levels=lv, setup=dh, meas_pt=mp)
@@ -153,7 +155,7 @@ def run_case(case):
         L["profiles"] = (u, v, Kx * s, Ky * s, Kz * s)
         L["domain"] = (Sh["domain"][0] * s, Sh["domain"][1] * s)
         L["halo"] = None if Sh["halo"] is None else Sh["halo"] * s
-        gL, cL, fL = run(L, q0, lv, footprint=fp, meas_pt=(mp[0] * s, mp[1] * s))
+        gL, cL, fL = run(L, q0, lv, footprint=fp, meas_pt=(mp[0] * s, mp[1] * s), srf_bg_conc=bgh)
         record("length_scale", rel(cL, c0, "conc"), tolh, field="conc", s=s, footprint=fp, levels=lv, setup=dh)
         record("length_scale", rel(fL, f0, "flx"), tolh, field="flx", s=s, footprint=fp, levels=lv, setup=dh)
         for k_, (ga, gb) in enumerate(zip(gL, g0)):
@@ -165,7 +167,7 @@ def run_case(case):
         sv = float(10 ** rng.uniform(-2, 2))
         V = dict(Sh)
         V["profiles"] = (u * sv, v * sv, Kx * sv, Ky * sv, Kz * sv)
-        gV, cV, fV = run(V, q0, lv, footprint=fp, meas_pt=mp)
+        gV, cV, fV = run(V, q0, lv, footprint=fp, meas_pt=mp, srf_bg_conc=bgh / sv)
         record("velocity_scale", rel(fV, f0, "flx"), tolh, field="flx", s=sv, footprint=fp, levels=lv, setup=dh)
         record("velocity_scale", rel(cV * sv, c0, "conc"), tolh, field="conc", s=sv, footprint=fp, levels=lv, setup=dh)
         sigs.append(f"{case['idx']}|velocity")
@@ -174,5 +176,6 @@ def run_case(case):
     if Sh is not None:
         b[f"halo:{Sh['halo_class']}"] = 1
         b["mode:footprint" if fp else "mode:dispersion"] = 1
+        b["scalings_with_background" if bgh else "scalings_without_background"] = 1
     return {"evals": counters["solver_calls"], "nontrivial": bool(sigs), "sig": sigs, "buckets": b, "resid": resid, "counters": counters,
             "violations": viol, "sample": {"mirror_setup": desc, "levels": levels, "precision": prec}}
